@@ -114,7 +114,8 @@ theorem split_life {s : State} (g : Good s) :
 
 
 
-theorem good_sys {s : State} (g : Good s) (b : Bool) : Good (if b = true then { s with sys := .running } else s) := by
+theorem good_sys {s : State} (g : Good s) (b : Bool) :
+    Good (if b = true then { s with sys := .running, paused := true } else s) := by
   split
   · exact g.congr rfl rfl rfl rfl rfl rfl rfl rfl rfl rfl rfl rfl rfl rfl
   · exact g
@@ -240,7 +241,7 @@ theorem good_life_noop {s0 s1 : State} {pre post : List Req} {l : Req} (p : PreL
 
 
 theorem finish_commit (s : State) (h : s.resetTo = none) (b : Bool) :
-    finish s b = if b = true then { commit s with sys := .running } else commit s := by
+    finish s b = if b = true then { commit s with sys := .running, paused := true } else commit s := by
   unfold finish
   simp only [h]
 
@@ -249,7 +250,7 @@ def resetState (s : State) (c : List Req) : State :=
   { s with executing := c, done := [], queue := [], resetTo := none, restartPending := none }
 
 theorem finish_reset (s : State) (c : List Req) (h : s.resetTo = some c) (b : Bool) :
-    finish s b = if b = true then { resetState s c with sys := .running } else resetState s c := by
+    finish s b = if b = true then { resetState s c with sys := .running, paused := true } else resetState s c := by
   unfold finish resetState
   simp only [h]
 
@@ -469,8 +470,9 @@ theorem PreLife.setPending {s0 s1 : State} {pre post : List Req} {l : Req} (p : 
       obtain ⟨_, _, _, r, _, h1, _, h3⟩ := p.core.live o ho hm
       rw [← h1]; exact h3)
   · obtain ⟨a1, a2, a3, a4, a5, a6, a7, a8, a9, a10, a11, a12, a13, a14, a15, a16, a17⟩ := view_eq p.view
-    show View.mk _ _ _ _ _ _ _ _ _ _ _ _ _ _ _ _ _ = View.mk _ _ _ _ _ _ _ _ _ _ _ _ _ _ _ _ _
-    rw [a1, a2, a3, a4, a6, a7, a8, a9, a10, a11, a12, a13, a14, a15, a16, a17]
+    have a0 := view_paused p.view
+    show View.mk _ _ _ _ _ _ _ _ _ _ _ _ _ _ _ _ _ _ = View.mk _ _ _ _ _ _ _ _ _ _ _ _ _ _ _ _ _ _
+    rw [a0, a1, a2, a3, a4, a6, a7, a8, a9, a10, a11, a12, a13, a14, a15, a16, a17]
 
 /-! ### what `_execute_internal_command` does in each lifecycle situation -/
 
@@ -702,6 +704,7 @@ theorem good_step {s : State} (g : Good s) (op : Op) : Good (step s op).1 := by
   | cancel i => exact good_cancel g i
   | force i => exact good_force g i
   | sim j => exact good_simulate g j
+  | pause b => exact g.congr rfl rfl rfl rfl rfl rfl rfl rfl rfl rfl rfl rfl rfl rfl
 
 theorem good_run {s : State} (g : Good s) (ops : List Op) : Good (run s ops) := by
   induction ops generalizing s with
